@@ -72,7 +72,9 @@ type mutant struct {
 	accept    []pair // acceptable identifications
 	anyTagFor []int  // reasons for which any of tags below is acceptable
 	tags      []int
-	with      []settings // settings this mutant is additionally judged under (besides the strict default and the seed-chosen ones)
+	// mustAcceptWhen: settings under which the mutated message is conforming again (the defect is one the settings waive)
+	mustAcceptWhen func(s settings) bool
+	with           []settings // settings this mutant is additionally judged under (besides the strict default and the seed-chosen ones)
 }
 
 func isFloatish(t string) bool {
@@ -318,7 +320,15 @@ func mutants(m *msggen.Message, r *rand.Rand, perKind int) []mutant {
 	}
 	for _, p := range pick(c) {
 		f := clone(fs)
-		f[p.idx].Val = fmt.Sprint(len(p.node.Entries) + 1)
+		n := len(p.node.Entries)
+		wrong := n + 1
+		switch {
+		case n > 0 && r.Intn(3) == 0:
+			wrong = 0 // entries follow a counter that declares none
+		case n > 1 && r.Intn(3) == 0:
+			wrong = n - 1
+		}
+		f[p.idx].Val = fmt.Sprint(wrong)
 		out = append(out, mutant{kind: "group-count", fields: f, mustWhen: dictReject, accept: []pair{{16, p.node.Tag}}})
 	}
 	// 10. group member order: swap two adjacent plain non-delimiter members of one entry
@@ -383,9 +393,25 @@ func mutants(m *msggen.Message, r *rand.Rand, perKind int) []mutant {
 		f := insertAt(fs, endBody, fixwire.Field{Tag: t, Val: "x"})
 		out = append(out, mutant{kind: "unknown-field", fields: f, mustWhen: func(s settings) bool { return s.RejectInvalidMessage && !s.AllowUnknownMessageFields }, accept: []pair{{0, t}}})
 		u := 5000 + r.Intn(4000)
+		if r.Intn(3) == 0 {
+			u = 5000 // the first user-defined tag
+		}
 		if appSpec.ByTag[u] == nil && trSpec.ByTag[u] == nil {
 			f2 := insertAt(fs, endBody, fixwire.Field{Tag: u, Val: "x"})
-			out = append(out, mutant{kind: "unknown-user-defined-field", fields: f2, mustWhen: func(s settings) bool { return s.RejectInvalidMessage && s.CheckUserDefinedFields }, accept: []pair{{0, u}}})
+			// judged under all four combinations of the two settings that could be confused at the boundary
+			var both []settings
+			for _, a := range []bool{false, true} {
+				for _, b := range []bool{false, true} {
+					both = append(both, settings{RejectInvalidMessage: true, AllowUnknownMessageFields: a, CheckUserDefinedFields: b, CheckFieldsHaveValues: true, CheckFieldsOutOfOrder: true})
+				}
+			}
+			out = append(out, mutant{kind: "unknown-user-defined-field", fields: f2, mustWhen: func(s settings) bool { return s.RejectInvalidMessage && s.CheckUserDefinedFields }, accept: []pair{{0, u}}, with: both,
+				mustAcceptWhen: func(s settings) bool { return !s.CheckUserDefinedFields }})
+		}
+		if t2 := 4999; appSpec.ByTag[t2] == nil && trSpec.ByTag[t2] == nil && r.Intn(3) == 0 {
+			f3 := insertAt(fs, endBody, fixwire.Field{Tag: t2, Val: "x"}) // the last tag below the user-defined range
+			out = append(out, mutant{kind: "unknown-field", fields: f3, mustWhen: func(s settings) bool { return s.RejectInvalidMessage && !s.AllowUnknownMessageFields }, accept: []pair{{0, t2}},
+				mustAcceptWhen: func(s settings) bool { return s.AllowUnknownMessageFields }})
 		}
 	}
 	// 12. field defined in the dictionary but not for this message
@@ -544,6 +570,11 @@ func runCase(c *core.Ctx, r *core.Result, t msggen.Target, i int, rng *rand.Rand
 			if v.parseErr != nil {
 				// refused even earlier: acceptable as a rejection, identification not available
 				r.Count("mutants_refused_by_parser."+mu.kind, 1)
+				continue
+			}
+			if v.rej != nil && mu.mustAcceptWhen != nil && mu.mustAcceptWhen(s) {
+				vc.Expect = "accepted (the settings waive this kind of field)"
+				r.Violate("C15/rejects-waived-defect/"+mu.kind, fmt.Sprintf("%s with %s rejected as %s although the settings %s let such a field through; wire %q", t.String(), mu.kind, rejStr(v), sstr(s), vc.Wire), vc)
 				continue
 			}
 			if v.rej == nil {
